@@ -181,10 +181,10 @@ func (av arrayValue) PropertyValue(iv Value) Value {
 }
 
 func (mv mapValue) Contains(iv Value) bool {
+	// the key that m[k] finds is the key that m contains
 	mr := reflect.ValueOf(mv.value)
-	ir := reflect.ValueOf(iv.Interface())
-	if ir.IsValid() && mr.Type().Key() == ir.Type() && ir.Comparable() {
-		return mr.MapIndex(ir).IsValid()
+	if kr, ok := mapKey(reflect.ValueOf(iv.Interface()), mr.Type().Key()); ok {
+		return mr.MapIndex(kr).IsValid()
 	}
 	return false
 }
